@@ -1774,7 +1774,7 @@ func runC17(c *Ctx) {
 			}
 			got := make([]entryResult, n)
 			var wg sync.WaitGroup
-			_, hang := timed(60*time.Second, func() {
+			_, hang := deadlockTimed(60*time.Second, func() {
 				for i := range ws {
 					wg.Add(1)
 					go func(i int) {
@@ -1786,7 +1786,12 @@ func runC17(c *Ctx) {
 			})
 			c.Count(fmt.Sprint("A", r, n), true)
 			if hang {
-				c.Fail(Failure{Kind: "crash", Sig: "C17:deadlock", What: "concurrent ExpandSpec calls on distinct documents did not finish within 60 s"})
+				var wjs []interface{}
+				for _, w := range ws {
+					wjs = append(wjs, worldJSON(w))
+				}
+				c.Fail(Failure{Kind: "crash", Sig: "C17:deadlock", What: "concurrent ExpandSpec calls on distinct documents did not finish within 60 s, nor within 4 more minutes", Case: map[string]interface{}{"worlds": wjs, "goroutines": n, "scenario": "A: one ExpandSpec per world, no cache"}})
+				return // the stuck goroutines cannot be stopped; the later scenarios would only inherit them
 			} else {
 				for i := range ws {
 					if msg, ok := sameOutcome(ws[i], "swagger", refs[i], got[i], ws[i].BuildGraph().Cyclic()); !ok {
@@ -1810,7 +1815,7 @@ func runC17(c *Ctx) {
 			before := optsString(shared)
 			got := make([]entryResult, n)
 			var wg sync.WaitGroup
-			_, hang := timed(60*time.Second, func() {
+			_, hang := deadlockTimed(60*time.Second, func() {
 				for i := 0; i < n; i++ {
 					wg.Add(1)
 					go func(i int) {
@@ -1824,7 +1829,8 @@ func runC17(c *Ctx) {
 			c.Hit("scenario:shared-options")
 			cs := map[string]interface{}{"world": worldJSON(w), "goroutines": n, "scenario": "one option structure shared by all calls"}
 			if hang {
-				c.Fail(Failure{Kind: "crash", Sig: "C17:deadlock", What: "concurrent ExpandSpec calls sharing one option structure did not finish within 60 s", Case: cs})
+				c.Fail(Failure{Kind: "crash", Sig: "C17:deadlock", What: "concurrent ExpandSpec calls sharing one option structure did not finish within 60 s, nor within 4 more minutes", Case: cs})
+				return
 			} else {
 				cyc := w.BuildGraph().Cyclic()
 				for i := 0; i < n; i++ {
@@ -1861,7 +1867,7 @@ func runC17(c *Ctx) {
 			gids := make([]int, n)
 			var wg sync.WaitGroup
 			start := make(chan struct{})
-			_, hang := timed(60*time.Second, func() {
+			_, hang := deadlockTimed(60*time.Second, func() {
 				for i := range calls {
 					wg.Add(1)
 					go func(i int) {
@@ -1879,8 +1885,8 @@ func runC17(c *Ctx) {
 			c.Count(fmt.Sprint("B", wj, n), true)
 			cs := map[string]interface{}{"world": wj, "calls": calls, "goroutines": n}
 			if hang {
-				c.Fail(Failure{Kind: "crash", Sig: "C17:deadlock", What: "concurrent expansions sharing one cache did not finish within 60 s", Case: cs})
-				continue
+				c.Fail(Failure{Kind: "crash", Sig: "C17:deadlock", What: "concurrent expansions sharing one cache did not finish within 60 s, nor within 4 more minutes", Case: cs})
+				return
 			}
 			for i := range calls {
 				if msg, ok := sameOutcome(w, "schema", refs[i], got[i], cyclic); !ok && !meansInput(w, calls[i], got[i]) {
@@ -2169,7 +2175,7 @@ func runC17(c *Ctx) {
 			}
 			bad := make([]string, n)
 			var wg sync.WaitGroup
-			_, hang := timed(60*time.Second, func() {
+			_, hang := deadlockTimed(60*time.Second, func() {
 				for i := 0; i < n; i++ {
 					wg.Add(1)
 					go func(i int) {
